@@ -1006,7 +1006,11 @@ def run_C18(rng, tier):
         fc.append(Case.simple(d, xs, {"view": name, "regime": "long", "model": False, "mode": "f64"}))
         mem.append(d)
         if name in WINDOWED or name in ("Roofing", "Pfe", "Eft"):
-            mem.append(mk_view(rng, name, rng.choice([E, ("Sma", 60, E)]), n=33 + rng.below(30)))     # large window / inner view silent for a while
+            big = mk_view(rng, name, rng.choice([E, ("Sma", 60, E)]), n=rng.choice([40, 64, 100, 128, 33 + rng.below(30)]))     # large window / inner view silent for a while
+            mem.append(big)
+            if not is_heavy(big):
+                r2, xs2 = gen_stream(rng, 700, "walk", positive=True, grid=8)
+                fc.append(Case.simple(big, xs2, {"view": name, "regime": "long/large-window", "model": False, "mode": "f64"}))
     run_impl(fc, mode="f64")
     viols += O.c18_pop(fc, pop_bound, long=True)
     viols += O.c18_mem(mem, 2000 if tier == "quick" else 250000)
